@@ -47,7 +47,8 @@ def boxcar_filter(time_series, lb=0, ub=0.5, n_iterations=2):
 
     #If the time_series is a 1-d, we add a dimension, so that we can iterate
     #over 2-d inputs:
-    if len(time_series.shape) == 1:
+    one_d = len(time_series.shape) == 1
+    if one_d:
         time_series = np.array([time_series])
     for i in range(time_series.shape[0]):
         if ub:
@@ -93,4 +94,9 @@ def boxcar_filter(time_series, lb=0, ub=0.5, n_iterations=2):
             #make sure that the mean of the signal (in % signal change) is
             #close to 0
 
-    return time_series.squeeze()
+    # Only take away the dimension that was added above (a 2-d input with a
+    # single channel keeps its shape):
+    if one_d:
+        return time_series[0]
+
+    return time_series
